@@ -69,6 +69,7 @@ class Ledger
 {
 public:
 	void reset() {
+		FaultPause fp;
 		std::lock_guard<std::mutex> g(m);
 		if(! reserved) {
 			// keep the bucket arrays from growing during a case (the per-case leak trigger compares heap sizes)
@@ -85,6 +86,7 @@ public:
 	}
 
 	void onCtor(const void * p, int id, int how) {
+		FaultPause fp;
 		std::lock_guard<std::mutex> g(m);
 		auto it = alive.find(p);
 		if(it != alive.end()) {
@@ -96,6 +98,7 @@ public:
 	}
 
 	void onDtor(const void * p, int id) {
+		FaultPause fp;
 		std::lock_guard<std::mutex> g(m);
 		auto it = alive.find(p);
 		if(it == alive.end()) {
@@ -111,6 +114,7 @@ public:
 	}
 
 	void onUse(const void * p, int id) {
+		FaultPause fp;
 		std::lock_guard<std::mutex> g(m);
 		auto it = alive.find(p);
 		if(it == alive.end()) {
@@ -149,6 +153,7 @@ public:
 		}
 	}
 	void flagExternal(const std::string & msg) {
+		FaultPause fp;
 		std::lock_guard<std::mutex> g(m);
 		flag(msg);
 	}
